@@ -127,4 +127,319 @@ theorem labelBytes_get (outs : List NodeOut) (n : Nat) (o : NodeOut) (ho : outs[
 theorem labelBytes_length (outs : List NodeOut) : (labelBytes outs).length = degs outs := by
   simp [labelBytes, degs, List.length_flatMap]
 
+/-! ### well-formedness of the BFS output -/
+
+theorem groups_nonempty : ∀ (l : Node) (x : Nat × Node), x ∈ groups l → x.2 ≠ []
+  | [], x, h => by simp [groups] at h
+  | [] :: rest, x, h => by simp only [groups] at h; exact groups_nonempty rest x h
+  | (c :: t) :: rest, x, h => by
+    have ih := groups_nonempty rest
+    cases hg : groups rest with
+    | nil => simp [groups, hg] at h; subst h; simp
+    | cons y gs =>
+      obtain ⟨c', g⟩ := y
+      by_cases e : c' = c
+      · subst e
+        simp [groups, hg] at h
+        rcases h with rfl | h
+        · simp
+        · exact ih x (by rw [hg]; simp [h])
+      · simp [groups, hg, e] at h
+        rcases h with rfl | rfl | h
+        · simp
+        · exact ih _ (by rw [hg]; simp)
+        · exact ih x (by rw [hg]; simp [h])
+
+/-- every node of a level is a non-empty strictly sorted list of words over `S` -/
+def LvlOk (S : Nat → Prop) (lvl : List Node) : Prop :=
+  ∀ m ∈ lvl, m ≠ [] ∧ StrictSorted m ∧ ∀ k ∈ m, ∀ c ∈ k, S c
+
+theorem nextLevel_ok (S : Nat → Prop) (lvl : List Node) (h : LvlOk S lvl) : LvlOk S (nextLevel lvl) := by
+  intro m hm
+  simp only [nextLevel, List.mem_flatMap, List.mem_map] at hm
+  obtain ⟨n, hn, x, hx, rfl⟩ := hm
+  obtain ⟨_, hs, hc⟩ := h n hn
+  obtain ⟨_, _, hchild⟩ := children_spec n hs
+  refine ⟨groups_nonempty _ x hx, hchild x hx, ?_⟩
+  intro k hk c hcin
+  have := children_sound n x.1 x.2 k hx hk
+  exact hc _ this c (List.mem_cons_of_mem _ hcin)
+
+theorem labels_in (S : Nat → Prop) (n : Node) (hc : ∀ k ∈ n, ∀ c ∈ k, S c) : ∀ l ∈ n.out.labels, S l := by
+  intro l hl
+  simp only [Node.out, List.mem_map] at hl
+  obtain ⟨x, hx, rfl⟩ := hl
+  have hne := groups_nonempty _ x hx
+  obtain ⟨t, ht⟩ := List.exists_mem_of_ne_nil _ hne
+  have := children_sound n x.1 x.2 t hx ht
+  exact hc _ this _ (by simp)
+
+theorem leaf_of_no_children (n : Node) (hne : n ≠ []) (hs : StrictSorted n) (hch : n.children = []) :
+    n.isLeaf = true := by
+  obtain ⟨hmem, _, _⟩ := children_spec n hs
+  cases n with
+  | nil => exact absurd rfl hne
+  | cons a l =>
+    cases a with
+    | nil => rfl
+    | cons c t =>
+      have := (hmem c t).mp (by simp)
+      rw [hch] at this; simp at this
+
+theorem fuel_next (lvl : List Node) (fuel : Nat) (h : ∀ m ∈ lvl, ∀ k ∈ m, k.length < fuel + 1) :
+    ∀ m ∈ nextLevel lvl, ∀ k ∈ m, k.length < fuel := by
+  intro m hm k hk
+  simp only [nextLevel, List.mem_flatMap, List.mem_map] at hm
+  obtain ⟨m0, hm0, y, hy, rfl⟩ := hm
+  have := children_sound m0 y.1 y.2 k hy hk
+  have := h m0 hm0 _ this
+  simp at this; omega
+
+theorem lvl_nil_of_fuel_zero (S : Nat → Prop) (lvl : List Node) (h : LvlOk S lvl)
+    (hf : ∀ m ∈ lvl, ∀ k ∈ m, k.length < 0) : lvl = [] := by
+  cases lvl with
+  | nil => rfl
+  | cons m l =>
+    obtain ⟨hne, _, _⟩ := h m (by simp)
+    obtain ⟨k, hk⟩ := List.exists_mem_of_ne_nil _ hne
+    exact absurd (hf m (by simp) k hk) (by omega)
+
+theorem levels_wf (S : Nat → Prop) : ∀ (fuel : Nat) (lvl : List Node) (pre : List NodeOut), LvlOk S lvl →
+    (∀ m ∈ lvl, ∀ k ∈ m, k.length < fuel) → pre.length + lvl.length = 1 + degs pre →
+    (pre ++ levels fuel lvl).length = 1 + degs (pre ++ levels fuel lvl)
+  | 0, lvl, pre, hok, hf, hinv => by
+    have := lvl_nil_of_fuel_zero S lvl hok hf
+    subst this
+    simpa [levels] using hinv
+  | fuel + 1, lvl, pre, hok, hf, hinv => by
+    by_cases hne : lvl = []
+    · subst hne; simpa [levels] using hinv
+    · rw [levels_succ fuel lvl hne, ← List.append_assoc]
+      apply levels_wf S fuel (nextLevel lvl) (pre ++ lvl.map Node.out) (nextLevel_ok S lvl hok) (fuel_next lvl fuel hf)
+      rw [List.length_append, List.length_map, degs_append, degs_map_out]; omega
+
+theorem levels_labels (S : Nat → Prop) : ∀ (fuel : Nat) (lvl : List Node), LvlOk S lvl →
+    ∀ o ∈ levels fuel lvl, ∀ l ∈ o.labels, S l
+  | 0, _, _, o, ho => by simp [levels] at ho
+  | fuel + 1, lvl, hok, o, ho => by
+    by_cases hne : lvl = []
+    · subst hne; simp [levels] at ho
+    · rw [levels_succ fuel lvl hne, List.mem_append] at ho
+      rcases ho with ho | ho
+      · obtain ⟨n, hn, rfl⟩ := List.mem_map.mp ho
+        exact labels_in S n (hok n hn).2.2
+      · exact levels_labels S fuel (nextLevel lvl) (nextLevel_ok S lvl hok) o ho
+
+theorem levels_last_leaf (S : Nat → Prop) : ∀ (fuel : Nat) (lvl : List Node), LvlOk S lvl → lvl ≠ [] →
+    (∀ m ∈ lvl, ∀ k ∈ m, k.length < fuel) →
+    ∃ o, (levels fuel lvl).getLast? = some o ∧ o.leaf = true
+  | 0, lvl, hok, hne, hf => absurd (lvl_nil_of_fuel_zero S lvl hok hf) hne
+  | fuel + 1, lvl, hok, hne, hf => by
+    rw [levels_succ fuel lvl hne]
+    by_cases hnext : nextLevel lvl = []
+    · have hl : levels fuel (nextLevel lvl) = [] := by
+        rw [hnext]; cases fuel <;> simp [levels]
+      rw [hl, List.append_nil]
+      obtain ⟨n, hn⟩ : ∃ n, lvl.getLast? = some n := by
+        cases h : lvl.getLast? with
+        | none => exact absurd (List.getLast?_eq_none_iff.mp h) hne
+        | some n => exact ⟨n, rfl⟩
+      refine ⟨n.out, by rw [List.getLast?_map, hn]; rfl, ?_⟩
+      have hmem : n ∈ lvl := List.mem_of_getLast? hn
+      obtain ⟨hne', hs, _⟩ := hok n hmem
+      apply leaf_of_no_children n hne' hs
+      have : n.children.map (·.2) = [] := by
+        simp only [nextLevel, List.flatMap_eq_nil_iff] at hnext
+        exact hnext n hmem
+      simpa using this
+    · obtain ⟨o, ho, hleaf⟩ := levels_last_leaf S fuel (nextLevel lvl) (nextLevel_ok S lvl hok) hnext (fuel_next lvl fuel hf)
+      refine ⟨o, ?_, hleaf⟩
+      rw [List.getLast?_append, ho]; rfl
+
+/-! ### the packed arrays of `Trie.ofOuts` -/
+
+theorem packs_of_packWords (bits : List Bool) :
+    Packs (packWords (bits.length + 1) bits) (bitFn bits) ∧ WordsLt (packWords (bits.length + 1) bits) ∧
+    (packWords (bits.length + 1) bits).length = (bits.length + 63) / 64 := by
+  obtain ⟨h1, h2⟩ := packWords_spec (bits.length + 1) bits (Nat.lt_succ_self _)
+  exact ⟨fun i hi j hj => (h2 i hi).2 j hj, fun i hi => (h2 i hi).1, h1⟩
+
+theorem getBit_pack (bits : List Bool) (q : Nat) (hq : q < bits.length) :
+    getBit (pack bits) q = some (bitFn bits q) := by
+  obtain ⟨hp, _, hlen⟩ := packs_of_packWords bits
+  have hi : q / 64 < (packWords (bits.length + 1) bits).length := by rw [hlen]; omega
+  unfold getBit pack
+  have hw : (packWords (bits.length + 1) bits).toArray[q / 64]? = some (packWords (bits.length + 1) bits)[q / 64]! := by
+    simp [List.getElem?_eq_getElem hi, List.getElem!_eq_getElem?_getD]
+  simp only [hw, Option.bind_eq_bind, Option.bind_some]
+  rw [hp (q / 64) hi (q % 64) (Nat.mod_lt _ (by decide))]
+  congr 2; omega
+
+theorem trimFalse_of_last_true (l : List Bool) (h : l.getLast? = some true) : trimFalse l = l := by
+  unfold trimFalse
+  obtain ⟨ys, rfl⟩ := List.getLast?_eq_some_iff.mp h
+  simp [List.dropWhile_cons]
+
+/-- facts about the BFS output that the navigation needs -/
+structure WF (chars : ValidChars) (outs : List NodeOut) : Prop where
+  len : outs.length = 1 + degs outs
+  lastLeaf : ∃ o, outs.getLast? = some o ∧ o.leaf = true
+  labels : ∀ o ∈ outs, ∀ l ∈ o.labels, chars.isValid l = true
+  root : 2 ≤ outs.length → ∃ o, outs[0]? = some o ∧ o.labels ≠ []
+
+theorem getBit_leaves (chars : ValidChars) (outs : List NodeOut) (wf : WF chars outs) (n : Nat) (o : NodeOut)
+    (ho : outs[n]? = some o) : getBit (Trie.ofOuts chars outs).leaves n = some o.leaf := by
+  have hn : n < outs.length := by
+    rcases Nat.lt_or_ge n outs.length with h | h
+    · exact h
+    · rw [List.getElem?_eq_none h] at ho; simp at ho
+  obtain ⟨ol, hol, hleaf⟩ := wf.lastLeaf
+  have htrim : trimFalse (leafBits outs) = leafBits outs := by
+    apply trimFalse_of_last_true
+    simp [leafBits, List.getLast?_map, hol, hleaf]
+  simp only [Trie.ofOuts, htrim]
+  rw [getBit_pack _ _ (by simpa [leafBits] using hn)]
+  simp [bitFn, leafBits, List.getD_eq_getElem?_getD, List.getElem?_map, ho]
+
+/-! ### the alphabet table -/
+
+theorem isValid_iff_mem (chars : ValidChars) (c : Nat) : chars.isValid c = true ↔ c ∈ chars.alphabet := by
+  unfold ValidChars.isValid ValidChars.code
+  constructor
+  · intro h
+    by_cases hm : c ∈ chars.alphabet
+    · exact hm
+    · simp only [hm, ↓reduceIte, Nat.lt_irrefl, decide_false, Bool.false_or, beq_iff_eq] at h
+      cases ha : chars.alphabet with
+      | nil => rw [ha] at h; simp at h
+      | cons a l => rw [ha] at h; simp at h; subst h; rw [ha] at hm; simp at hm
+  · intro hm
+    simp only [hm, ↓reduceIte, Bool.or_eq_true, decide_eq_true_eq, beq_iff_eq]
+    by_cases h0 : chars.alphabet.idxOf c = 0
+    · right
+      cases ha : chars.alphabet with
+      | nil => rw [ha] at hm; simp at hm
+      | cons a l =>
+        rw [ha] at h0
+        simp only [List.idxOf_cons] at h0
+        by_cases e : a = c
+        · simp [e]
+        · have hb : (a == c) = false := by simp [e]
+          rw [hb] at h0; simp at h0
+    · left; omega
+
+theorem code_lt (chars : ValidChars) (c : Nat) (h : chars.isValid c = true) : chars.code c < chars.alphabet.length := by
+  have hm := (isValid_iff_mem chars c).mp h
+  unfold ValidChars.code
+  rw [if_pos hm]
+  exact List.idxOf_lt_length_iff.mpr hm
+
+theorem code_inj (chars : ValidChars) (a b : Nat) (ha : chars.isValid a = true) (hb : chars.isValid b = true)
+    (h : chars.code a = chars.code b) : a = b := by
+  have hma := (isValid_iff_mem chars a).mp ha
+  have hmb := (isValid_iff_mem chars b).mp hb
+  unfold ValidChars.code at h
+  rw [if_pos hma, if_pos hmb] at h
+  have h1 := List.getElem_idxOf (List.idxOf_lt_length_iff.mpr hma)
+  have h2 := List.getElem_idxOf (List.idxOf_lt_length_iff.mpr hmb)
+  rw [← h1, ← h2]
+  simp [h]
+
+/-! ### rank / select / labels of `Trie.ofOuts` in terms of the BFS list -/
+
+def wsOf (outs : List NodeOut) : List Nat := packWords ((bitmapBits outs).length + 1) (bitmapBits outs)
+
+theorem bitFn_beyond (bits : List Bool) (q : Nat) (h : bits.length ≤ q) : bitFn bits q = false := by
+  simp [bitFn, List.getD_eq_getElem?_getD, List.getElem?_eq_none h]
+
+theorem ws_cover (outs : List NodeOut) : (bitmapBits outs).length ≤ 64 * (wsOf outs).length := by
+  have := (packs_of_packWords (bitmapBits outs)).2.2
+  unfold wsOf; rw [this]; omega
+
+theorem ones_total (outs : List NodeOut) :
+    onesUpTo (bitFn (bitmapBits outs)) (64 * (wsOf outs).length) = outs.length := by
+  have h := cnt_const_of_zero
+  have : onesUpTo (bitFn (bitmapBits outs)) (64 * (wsOf outs).length) =
+      onesUpTo (bitFn (bitmapBits outs)) (bitmapBits outs).length := by
+    have hc := ws_cover outs
+    obtain ⟨d, hd⟩ := Nat.exists_eq_add_of_le hc
+    rw [hd, onesUpTo_add]
+    have : onesUpTo (fun j => bitFn (bitmapBits outs) ((bitmapBits outs).length + j)) d = 0 := by
+      unfold onesUpTo; rw [List.countP_eq_zero]
+      intro j _; simp [bitFn_beyond _ _ (Nat.le_add_right _ _)]
+    omega
+  rw [this, onesUpTo_length, bitmapBits_count]
+
+theorem start_le (outs : List NodeOut) (n : Nat) (hn : n ≤ outs.length) : start outs n ≤ (bitmapBits outs).length := by
+  rw [start_eq_length outs n hn, bitmapBits_split outs n, List.length_append]; omega
+
+theorem getBit_bitmap (chars : ValidChars) (outs : List NodeOut) (q : Nat) (hq : q < (bitmapBits outs).length) :
+    getBit (Trie.ofOuts chars outs).labelBitmap q = some (bitFn (bitmapBits outs) q) :=
+  getBit_pack _ q hq
+
+theorem cz_ofOuts (chars : ValidChars) (outs : List NodeOut) (hne : outs ≠ []) (q : Nat)
+    (hq : q < (bitmapBits outs).length) :
+    countZeros (Trie.ofOuts chars outs).labelBitmap (Trie.ofOuts chars outs).ranksBL q =
+      some (q - onesUpTo (bitFn (bitmapBits outs)) q) := by
+  obtain ⟨hp, _, hlen⟩ := packs_of_packWords (bitmapBits outs)
+  have hpos : 0 < onesUpTo (bitFn (bitmapBits outs)) (64 * (wsOf outs).length) := by
+    rw [ones_total]; exact List.length_pos_iff.mpr hne
+  have := countZeros_spec (bitFn (bitmapBits outs)) (wsOf outs) hp hpos q (by
+    have := ws_cover outs; omega)
+  exact this
+
+theorem sel_ofOuts (chars : ValidChars) (outs : List NodeOut) (wf : WF chars outs) (n : Nat) (h1 : 1 ≤ n)
+    (hn : n < outs.length) :
+    selectIthOne (Trie.ofOuts chars outs).labelBitmap (Trie.ofOuts chars outs).ranksBL
+      (Trie.ofOuts chars outs).selectsBL (n - 1) = some (start outs n - 1) := by
+  obtain ⟨hp, hlt, hlen⟩ := packs_of_packWords (bitmapBits outs)
+  have hne : outs ≠ [] := by intro h; rw [h] at hn; simp at hn
+  have hpos : 0 < onesUpTo (bitFn (bitmapBits outs)) (64 * (wsOf outs).length) := by
+    rw [ones_total]; exact List.length_pos_iff.mpr hne
+  -- the terminator of node n-1
+  obtain ⟨o', ho'⟩ : ∃ o', outs[n - 1]? = some o' := ⟨_, List.getElem?_eq_getElem (by omega)⟩
+  obtain ⟨_, s2, s3⟩ := segment outs (n - 1) o' ho'
+  have hst : start outs n = start outs (n - 1) + o'.labels.length + 1 := by
+    have := start_succ outs (n - 1) o' ho'
+    rwa [show n - 1 + 1 = n by omega] at this
+  have hQ : start outs n - 1 = start outs (n - 1) + o'.labels.length := by omega
+  have hQlen : start outs n - 1 < 64 * (wsOf outs).length := by
+    have := start_le outs n (by omega); have := ws_cover outs; omega
+  -- bit 0 is a zero: the root has a label
+  obtain ⟨o0, ho0, hlab0⟩ := wf.root (by omega)
+  have hB0 : bitFn (bitmapBits outs) 0 = false := by
+    have := (segment outs 0 o0 ho0).1 0 (List.length_pos_iff.mpr hlab0)
+    simpa [start, degs] using this
+  obtain ⟨s, hs, hsB, hsi⟩ := selectsBL_get (bitFn (bitmapBits outs)) (wsOf outs) hp
+    (fun q hq => bitFn_beyond _ _ (by have := ws_cover outs; omega)) hB0 (n - 1) (by rw [ones_total]; omega)
+  rw [hQ]
+  exact selectIthOne_spec (bitFn (bitmapBits outs)) (wsOf outs) hp hlt hpos _ _ (n - 1) s s2
+    (s3 _ (Nat.le_refl _)) (by omega) hs hsB (by omega)
+
+theorem lab_ofOuts (chars : ValidChars) (outs : List NodeOut) (wf : WF chars outs) (h0 : 0 < chars.size)
+    (n : Nat) (o : NodeOut) (ho : outs[n]? = some o) (k : Nat) (hk : k < o.labels.length) :
+    (Trie.ofOuts chars outs).labels.get (degs (outs.take n) + k) = some (chars.code o.labels[k]) := by
+  have hget := labelBytes_get outs n o ho k hk
+  have hidx : degs (outs.take n) + k < ((labelBytes outs).map chars.code).length := by
+    rw [List.length_map]
+    rcases Nat.lt_or_ge (degs (outs.take n) + k) (labelBytes outs).length with h | h
+    · exact h
+    · rw [List.getElem?_eq_none h, List.getElem?_eq_getElem hk] at hget; simp at hget
+  have hall : ∀ v ∈ (labelBytes outs).map chars.code, v < 2 ^ len64 chars.size := by
+    intro v hv
+    obtain ⟨l, hl, rfl⟩ := List.mem_map.mp hv
+    simp only [labelBytes, List.mem_flatMap] at hl
+    obtain ⟨o1, ho1, hl1⟩ := hl
+    have := code_lt chars l (wf.labels o1 ho1 l hl1)
+    exact lt_two_pow_len64 (by unfold ValidChars.size; omega)
+  simp only [Trie.ofOuts]
+  rw [BitList.ofList_get _ _ (len64_pos h0) hall _ hidx]
+  congr 1
+  rw [List.getElem_map]
+  congr 1
+  have : (labelBytes outs)[degs (outs.take n) + k]? = some o.labels[k] := by
+    rw [hget, List.getElem?_eq_getElem hk]
+  rw [List.getElem?_eq_getElem (by simpa using hidx)] at this
+  exact Option.some.inj this
+
 end DaeVerif.C11
